@@ -29,6 +29,60 @@ fn main() {
     if args.is_empty() {
         usage();
     }
+    if args[0] == "--leak-probe" {
+        // development aid: resident memory after n cases of a given shape
+        let mode: u32 = args.get(1).and_then(|s| s.parse().ok()).unwrap_or(0);
+        let n: usize = args.get(2).and_then(|s| s.parse().ok()).unwrap_or(20_000);
+        let rss = || std::fs::read_to_string("/proc/self/statm").ok().and_then(|s| s.split_whitespace().nth(1).and_then(|x| x.parse::<u64>().ok())).unwrap_or(0) * 4;
+        let before = rss();
+        for chunk in 0..(n / 400).max(1) {
+            let _ = mqtt_verif::bed::with_system(async move {
+                let cfg5 = mqtt_verif::bed::v5::Cfg5::default();
+                let app = mqtt_verif::bed::App::new();
+                let sinks = std::rc::Rc::new(std::cell::RefCell::new(Vec::new()));
+                let pipeline = if mode == 4 { Some(mqtt_verif::bed::v5::server_pipeline(app.clone(), &cfg5, sinks.clone()).await) } else { None };
+                for _ in 0..400 {
+                    match mode {
+                        4 => {
+                            let e = mqtt_verif::bed::v5::Eut5::attach_server(pipeline.as_ref().unwrap(), app.clone(), &cfg5);
+                            e.handshake(&cfg5).await;
+                            e.peer.close();
+                            e.settle().await;
+                            sinks.borrow_mut().clear();
+                            app.log.borrow_mut().clear();
+                        }
+                        0 => {
+                            let (p, io) = mqtt_verif::bed::Peer::pair();
+                            drop((p, io));
+                        }
+                        1 => {
+                            let (p, io) = mqtt_verif::bed::Peer::pair();
+                            let io = ntex_io::Io::new(io, mqtt_verif::bed::v5::Cfg5::default().shared());
+                            drop((p, io));
+                        }
+                        2 => {
+                            let cfg = mqtt_verif::bed::any::Cfg::default();
+                            let eut = mqtt_verif::bed::any::Eut::start(mqtt_verif::bed::Role::V5Server, &cfg).await;
+                            eut.finish().await;
+                        }
+                        _ => {
+                            let cfg = mqtt_verif::bed::any::Cfg::default();
+                            let eut = mqtt_verif::bed::any::Eut::start(mqtt_verif::bed::Role::V5Server, &cfg).await;
+                            eut.handshake(&cfg).await;
+                            eut.finish().await;
+                        }
+                    }
+                }
+            });
+            if chunk % 10 == 9 && std::env::var_os("LEAK_SLEEP").is_some() {
+                let _ = mqtt_verif::bed::with_system(async move { ntex::time::sleep(ntex::time::Millis(2500)).await });
+            }
+            if chunk % 10 == 9 {
+                eprintln!("after {} cases: rss {} KB (+{})", (chunk + 1) * 400, rss(), rss() - before);
+            }
+        }
+        std::process::exit(0);
+    }
     if args[0] == "--emit-corpus" {
         // seed corpora for the libFuzzer targets: valid spec-encoded frames (decoder targets: 3-byte header = whole delivery)
         let Some(dir) = args.get(1) else { usage() };
